@@ -119,7 +119,7 @@ func init() {
 	}
 	registry["C10"] = func() Check {
 		return &SeqCheck{Prop: "C10",
-			Ideal: famFull(3), IdealDeep: famFull(4), IdealProps: []string{"P_C10"}, Probes: append(append([]emitted{}, probeHalf...), probeD10...),
+			Ideal: famFull(3), IdealDeep: famFull(4), IdealProps: []string{"P_C10"}, Probes: append(append(append([]emitted{}, probeHalf...), probeD10...), probeTorn...),
 			Proc: &ProcCheck{Prop: "C10", Scenarios: "FailScenarios", IdealInvs: []string{"Serializable"}, Only: []string{"C10_serial"}},
 			GenQuick: famFull(2), GenThorough: famFull(4), SampleQuick: 60,
 			Sim: with(famFull(10), func(m *SeqModel) { m.MaxTasks = 3 }), SimNumQuick: 80, SimNumThorough: 3000}
@@ -170,7 +170,7 @@ func init() {
 	}
 	registry["C12"] = func() Check {
 		return &SeqCheck{Prop: "C12",
-			Ideal: famFull(3), IdealDeep: famFull(4), IdealProps: []string{"P_C12"}, Extra: fileCases,
+			Ideal: famFull(3), IdealDeep: famFull(4), IdealProps: []string{"P_C12"}, Extra: fileCases, Probes: probeTorn,
 			GenQuick: famFull(2), GenThorough: famFull(4), SampleQuick: 60,
 			Sim: with(famFull(10), func(m *SeqModel) { m.MaxTasks = 3 }), SimNumQuick: 80, SimNumThorough: 3000}
 	}
